@@ -54,6 +54,7 @@ struct FdEnt {
     std::deque<CanRec> canq;
     std::vector<struct can_filter> can_filters;  // CAN_RAW_FILTER (empty = the default filter that accepts every data frame)
     bool can_filter_set = false;
+    bool can_loopback = true;     // CAN_RAW_LOOPBACK: without it, frames written to a virtual CAN interface reach no other local socket
     uint32_t can_err_mask = 0;    // CAN_RAW_ERR_FILTER: classes of error message frames this socket wants (0 = none, the default)
     uint64_t rcvtimeo_ns = 0;     // SO_RCVTIMEO: a blocking read/recv gives up with EAGAIN after this long (0 = never)
     uint64_t tx_busy_until = 0;   // CAN transmit queue model (see World::can_txq_cap)
@@ -143,6 +144,7 @@ class World {
     // full fails with ENOBUFS, as on real controllers (txqueuelen 10). 0 = unlimited (virtual CAN).
     size_t can_txq_cap = 0;
     uint64_t can_tx_ns = 120000;
+    bool env_on = false;     // every environment variable a program asks for reads "1" (debug switches and the like)
     double can_read0_p = 0;  // cooperative fault point: read() on a CAN socket returns 0 (the talker explicitly retries on 0)
     uint64_t step_budget = 20000000ULL;
     uint64_t call_budget = 100000ULL;
